@@ -133,14 +133,27 @@ Definition parent_first_empty_b (before : bheap) (o : bop) (after : bheap) (acce
   | _ => true
   end.
 
-(* "... or is refused when both are taken" (by two nodes other than the one being attached) *)
+(* a is a proper ancestor of x (walk of at most `fuel` parent links) *)
+Fixpoint is_anc_b (s : bheap) (fuel : nat) (a x : id) : bool :=
+  match fuel with
+  | 0 => false
+  | S f => match bpar s x with
+           | None => false
+           | Some q => Nat.eqb q a || is_anc_b s f a q
+           end
+  end.
+
+(* "... or is refused when both are taken" (by two nodes other than the one being attached) — and,
+   when no hook fails, only then or when the assignment would create a loop *)
 Definition full_refused_b (before : bheap) (o : bop) (accepted : bool) : bool :=
   match o with
-  | BSetParent c (ANode p) _ =>
-      match slot_at before p 0, slot_at before p 1 with
-      | Some x, Some y => if negb (Nat.eqb x c) && negb (Nat.eqb y c) then negb accepted else true
-      | _, _ => true
-      end
+  | BSetParent c (ANode p) ft =>
+      let taken := fun o => match o with Some x => negb (Nat.eqb x c) | None => false end in
+      let full := taken (slot_at before p 0) && taken (slot_at before p 1) in
+      let loop := Nat.eqb p c || is_anc_b before (bsize before) c p in
+      if full then negb accepted
+      else if fault_eqb ft NoFault && negb loop then accepted
+      else true
   | _ => true
   end.
 
